@@ -45,8 +45,11 @@ func c19Gen(class string, seed uint64, tier string) *vfScenario {
 			f.A = 0
 			f.B = int64([]uint32{0, 1, 2, 3, 3, 3, 4, 5, 6, 0xffffffff, uint32(rng.Uint32())}[rng.IntN(11)])
 			f.S = fmt.Sprint(rng.IntN(len(c19ExtLists)))
-		case x < 50:
+		case x < 44:
 			f.A, f.B = 1, int64([]int{101, 1, 3, 0, 255, 102, 201}[rng.IntN(7)])
+		case x < 50:
+			// a well-formed reply of another type (a status - any code, also OK -, a handle, attributes, ...), request id 0 or not
+			f.A, f.B = 7, int64(rng.IntN(c19OtherReplies*2))
 		case x < 75:
 			f.A, f.B, f.S = 2, int64(rng.IntN(60)), fmt.Sprint(rng.IntN(len(c19ExtLists)))
 		case x < 85:
@@ -101,6 +104,29 @@ func c19Gen(class string, seed uint64, tier string) *vfScenario {
 	return sc
 }
 
+const c19OtherReplies = 15
+
+// c19OtherReply: the k-th well-formed non-VERSION reply (k >= c19OtherReplies: the same with request id 3 instead of 0).
+func c19OtherReply(k int) []byte {
+	id := uint32(0)
+	if k >= c19OtherReplies {
+		id, k = 3, k-c19OtherReplies
+	}
+	switch {
+	case k < 10:
+		return ssStatus(id, uint32(k), "no").encode()
+	case k == 10:
+		return (&wResp{Type: wtHandle, ID: id, Handle: "h"}).encode()
+	case k == 11:
+		return (&wResp{Type: wtAttrs, ID: id}).encode()
+	case k == 12:
+		return (&wResp{Type: wtName, ID: id}).encode()
+	case k == 13:
+		return (&wResp{Type: wtData, ID: id}).encode()
+	}
+	return (&wResp{Type: wtExtReply, ID: id, Raw: make([]byte, 8)}).encode()
+}
+
 func c19Enumerate(tier string, base uint64, emit func(*vfScenario)) {
 	n := 0
 	mk := func(f vfFault) {
@@ -130,6 +156,9 @@ func c19Enumerate(tier string, base uint64, emit func(*vfScenario)) {
 	}
 	for t := 0; t < 256; t += 3 {
 		mk(vfFault{A: 1, B: int64(t)})
+	}
+	for k := 0; k < 2*c19OtherReplies; k++ {
+		mk(vfFault{A: 7, B: int64(k)})
 	}
 	for i := 0; i < 4; i++ {
 		mk(vfFault{A: 3, B: int64(i)})
@@ -204,6 +233,8 @@ func c19Client(r *vfRun) {
 		binary.BigEndian.PutUint32(reply, []uint32{0, 256*1024 + 1, 0x7fffffff, 0xffffffff}[f.B%4])
 	case 4:
 		closeAfter = true
+	case 7:
+		reply = c19OtherReply(int(f.B))
 	case 6:
 		full := c19Version(3, exts)
 		cut := int(f.B)
